@@ -316,7 +316,7 @@ func (w *world) afterEvent(n *simNode, ev evInfo, bf nodeBefore, outs []string, 
 		}
 		// ---- C07: PREPARE / adoption in a view above 0 only under a valid NEW_VIEW certificate ----
 		for _, s := range sent {
-			if s.Kind == "P" && s.Ref.View > 0 {
+			if s.Kind == "P" && s.Ref.View > 0 && s.Ref.Height == bf.h { // (a commit inside this event may have started the next height and consumed cached messages: those are judged by the model correspondence)
 				w.checkC07(n, m, bf, s.Ref.View, s.Ref.Hash)
 			}
 		}
